@@ -34,6 +34,9 @@ def has_underscore_key(v) -> bool:
     return False
 
 
+_SHARED = None
+
+
 def oracle(ctx: Ctx, case: dict, d: dict) -> None:
     from dictIO import DictReader, DictWriter, FoamFormatter, FoamParser, SDict
     exp = spec.norm(drop_underscore(d))
@@ -45,6 +48,20 @@ def oracle(ctx: Ctx, case: dict, d: dict) -> None:
         ctx.violation("FoamFormatter.to_string raises", case, repr(e), "text"); return
     if enc(arg) != before:
         ctx.violation("FoamFormatter.to_string modified its argument", case, enc(arg), before)
+    # one formatter object used for many dicts (state carried between calls), directly and through DictWriter(formatter=...)
+    global _SHARED
+    if _SHARED is None:
+        _SHARED = FoamFormatter()
+    try:
+        t_shared = _SHARED.to_string(copy.deepcopy(d))
+        with impl.scratch() as td:
+            DictWriter.write(copy.deepcopy(d), td / "s.foam", mode="w", formatter=_SHARED)
+            DictWriter.write(copy.deepcopy(d), td / "f.foam", mode="w", formatter=FoamFormatter())
+            same_file = (td / "s.foam").read_text() == (td / "f.foam").read_text()
+    except Exception as e:  # noqa: BLE001
+        ctx.violation("a FoamFormatter that is used again raises", case, repr(e), "text"); return
+    if t_shared != text or not same_file:
+        ctx.violation("a FoamFormatter that was used before writes something else than a fresh one", case, t_shared, text)
     if "'" in text and not any_apostrophe(d):
         ctx.violation("foam output contains a single-quoted string", case, text, "no single quotes")
     for line in text.splitlines():
